@@ -17,7 +17,7 @@ use arrow_array::ffi::{from_ffi, to_ffi};
 use arrow_array::ffi_stream::{ArrowArrayStreamReader, FFI_ArrowArrayStream};
 use arrow_array::types::Int32Type;
 use arrow_array::{Array, ArrayRef, BooleanArray, Int32Array, RecordBatch, RecordBatchIterator, RecordBatchReader};
-use arrow_buffer::pool::{MemoryPool, TrackingMemoryPool};
+use arrow_buffer::{MemoryPool, TrackingMemoryPool};
 use arrow_buffer::{BooleanBuffer, Buffer, MutableBuffer, NullBuffer, ScalarBuffer};
 use arrow_data::ffi::FFI_ArrowArray;
 use arrow_schema::ffi::FFI_ArrowSchema;
@@ -174,6 +174,13 @@ fn buffers(o: &Obj) -> Vec<&Buffer> {
     }
 }
 
+/// `ArrayData::claim` (compiled only with arrow-data's `pool` feature, which the harness manifest does not
+/// enable): claim every data buffer, then the validity buffer — the same calls in the same order.
+fn claim_data(d: &arrow_data::ArrayData, pool: &TrackingMemoryPool) {
+    for b in d.buffers() { b.claim(pool); }
+    if let Some(n) = d.nulls() { n.claim(pool); }
+    for c in d.child_data() { claim_data(c, pool); }
+}
 fn vec_from_le<T, const N: usize>(bytes: &[u8], f: impl Fn([u8; N]) -> T) -> Vec<T> {
     let n = bytes.len() / N;
     let mut v = Vec::with_capacity(n);
@@ -447,11 +454,11 @@ impl Ctx {
                     Obj::Bits(x) => if s.capk[0] { x.claim(&self.pool); 0 } else { 3 },
                     Obj::Arr(x) => {
                         let ok = s.capk[0] && (!null_count_nonzero(x.nulls()) || s.capk[1]);
-                        if ok { x.to_data().claim(&self.pool); 0 } else { 3 }
+                        if ok { claim_data(&x.to_data(), &self.pool); 0 } else { 3 }
                     }
                     Obj::BArr(x) => {
                         let ok = s.capk[0] && (!null_count_nonzero(x.nulls()) || s.capk[1]);
-                        if ok { x.to_data().claim(&self.pool); 0 } else { 3 }
+                        if ok { claim_data(&x.to_data(), &self.pool); 0 } else { 3 }
                     }
                     _ => 3,
                 };
@@ -626,7 +633,7 @@ fn make_typed_array(ty: usize, len: usize, r: &mut Rng) -> ArrayRef {
             for _ in 0..len { if null(r) { b.append_null() } else { b.append_value(["a", "bb", "ccc"][r.below(3)]) } }
             Arc::new(b.finish())
         }
-        9 => Arc::new((0..len).map(|_| if null(r) { None } else { Some(r.bytes(r.below(9))) }).collect::<arrow_array::BinaryArray>()),
+        9 => Arc::new((0..len).map(|_| if null(r) { None } else { Some({ let n = r.below(9); r.bytes(n) }) }).collect::<arrow_array::BinaryArray>()),
         10 => Arc::new((0..len).map(|_| if null(r) { None } else { Some(f64::from_bits(r.next())) }).collect::<arrow_array::Float64Array>()),
         11 => {
             let mut b = FixedSizeListBuilder::new(Int32Builder::new(), 3);
@@ -891,8 +898,130 @@ fn seed_scenario(g: &mut Gen, ncust: &mut usize) {
     }
 }
 
+/// Short deterministic-shape scenarios that drive the rarer paths (in-place success, builder, vec, stream
+/// exhaustion, re-export of an imported array); random operations are interleaved before and after them.
+fn scenario(g: &mut Gen, ncust: &mut usize) {
+    let which = g.r.below(7);
+    let new_buf = |g: &mut Gen, ncust: &mut usize, esz: usize, custom: bool| -> usize {
+        let d = g.payload(esz.max(4));
+        if custom { let id = *ncust; *ncust += 1; g.push(1, id, 0, 0, 0, d); } else { g.push(0, esz, 0, 0, 0, d); }
+        g.nslots - 1
+    };
+    match which {
+        0 => { // into_mutable: shared -> Err, unique -> Ok, write, freeze, with or without a reservation
+            let via_mut = g.r.bool();
+            let b = if via_mut { let d = g.payload(1); let cap = d.len() + g.r.below(100); g.push(2, cap, 0, 0, 0, d); let m = g.nslots - 1; g.push(7, m, 0, 0, 0, vec![]); m }
+                    else { let e = *g.r.pick(&[1usize, 4, 8]); new_buf(g, ncust, e, false) };
+            if g.r.bool() { g.push(22, b, 0, 0, 0, vec![]); }
+            g.push(3, b, 0, 0, 0, vec![]); let c = g.nslots - 1;
+            g.push(6, b, 0, 0, 0, vec![]);
+            g.push(5, c, 0, 0, 0, vec![]);
+            if g.r.chance(1, 3) { let l = g.with(b, |s| view(&s.o).len()); let k = g.r.below(l + 1); g.push(4, b, 0, k, 0, vec![]); let sl = g.nslots - 1; g.push(5, b, 0, 0, 0, vec![]); g.push(6, sl, 0, 0, 0, vec![]); return; }
+            g.push(6, b, 0, 0, 0, vec![]);
+            let l = g.with(b, |s| view(&s.o).len());
+            if l > 0 { let p = g.r.below(l); g.push(8, b, p, 0xA5, 0, vec![]); }
+            if g.r.bool() { let n = g.r.below(l + 1); g.push(25, b, n, 0, 0, vec![]); }
+            g.push(7, b, 0, 0, 0, vec![]);
+        }
+        1 => { // BooleanBuffer op= : in place when unique and unsliced, otherwise a copy
+            let d = g.payload(1); let nbits = d.len() * 8;
+            g.push(0, 1, 0, 0, 0, d.clone()); let x = g.nslots - 1;
+            let extra = g.r.below(3); let d2 = g.r.bytes(d.len() + extra); g.push(0, 1, 0, 0, 0, d2); let y = g.nslots - 1;
+            let ox = *g.r.pick(&[0usize, 0, 3, 8, 64]); let oy = *g.r.pick(&[0usize, 3, 5, 8, 64]);
+            let len = nbits.saturating_sub(ox.max(oy)); if len == 0 { return; }
+            let len = 1 + g.r.below(len);
+            g.push(12, x, ox, len, 0, vec![]); g.push(12, y, oy, len, 0, vec![]);
+            let w = g.r.below(3); g.push(19, x, y, w, 0, vec![]);
+            g.push(3, x, 0, 0, 0, vec![]); let c = g.nslots - 1;
+            let w = g.r.below(3); g.push(19, x, y, w, 0, vec![]);
+            let w = g.r.below(3); g.push(19, x, c, w, 0, vec![]);
+            if g.r.bool() { g.push(13, x, c, 1, 0, vec![]); }
+        }
+        2 => { // unique array: unary_mut / try_unary_mut / into_builder succeed in place
+            let via_mut = g.r.chance(1, 3);
+            let v = if via_mut { let d = g.payload(4); let cap = d.len(); g.push(2, cap, 0, 0, 0, d); let m = g.nslots - 1; g.push(7, m, 0, 0, 0, vec![]); m } else { new_buf(g, ncust, 4, false) };
+            let words = g.with(v, |s| view(&s.o).len()) / 4;
+            let with_nulls = g.r.chance(2, 3);
+            if with_nulls {
+                let need = (words + 7) / 8 + 2;
+                let mut nb = g.payload(1); while nb.len() < need { let more = nb.clone(); nb.extend_from_slice(&more); }
+                g.push(0, 1, 0, 0, 0, nb); let n = g.nslots - 1;
+                let off = *g.r.pick(&[0usize, 0, 0, 8, 3]);
+                g.push(12, n, off, words, 0, vec![]);
+                if g.r.chance(1, 4) { g.push(3, n, 0, 0, 0, vec![]); }
+                g.push(11, v, n, 1, 0, vec![]);
+            } else { g.push(11, v, 0, 0, 0, vec![]); }
+            let code = *g.r.pick(&[14usize, 15, 16, 16]);
+            let k = g.r.below(500);
+            let trig = if g.r.chance(1, 3) && words > 0 { g.with(v, |s| if let Obj::Arr(x) = &s.o { x.value(g_idx(x.len())) as u32 as usize } else { 1 }) } else { 0xFFFF_FFF1 };
+            g.push(code, v, k, trig, 0, vec![]);
+            if g.ctx.kind(v) == 7 {
+                if words > 0 { let p = g.r.below(words * 4); g.push(18, v, p, 0x5A, 0, vec![]); }
+                g.push(17, v, 0, 0, 0, vec![]);
+            }
+            if g.ctx.kind(v) == 4 && g.r.bool() { let k2 = g.r.below(9); g.push(14, v, k2, 0, 0, vec![]); }
+        }
+        3 => { // export, import, re-export of the imported array, drops in random order
+            let custom = g.r.bool();
+            let v = new_buf(g, ncust, 4, custom);
+            g.push(11, v, 0, 0, 0, vec![]);
+            if g.r.bool() { let l = g.with(v, |s| if let Obj::Arr(x) = &s.o { x.len() } else { 0 }); let o = g.r.below(l + 1); let n = g.r.below(l - o + 1); g.push(4, v, o, n, 0, vec![]); }
+            let src = g.nslots - 1;
+            let src = if g.ctx.kind(src) == 4 { src } else { v };
+            g.push(20, src, 0, 0, 0, vec![]); let e = g.nslots - 1;
+            if g.r.chance(1, 4) { g.push(5, e, 0, 0, 0, vec![]); return; }
+            if g.r.bool() { g.push(5, v, 0, 0, 0, vec![]); if src != v && g.r.bool() { g.push(5, src, 0, 0, 0, vec![]); } }
+            g.push(21, e, 0, 0, 0, vec![]);
+            g.push(14, e, 1, 0, 0, vec![]);                  // imported memory is never mutable
+            g.push(20, e, 0, 0, 0, vec![]); let e2 = g.nslots - 1;
+            if g.r.bool() { g.push(5, e, 0, 0, 0, vec![]); }
+            g.push(21, e2, 0, 0, 0, vec![]);
+            if g.r.bool() { g.push(22, e2, 0, 0, 0, vec![]); }
+        }
+        4 => { // stream: two batches, read to exhaustion
+            let cu = g.r.bool(); let v = new_buf(g, ncust, 4, cu); g.push(11, v, 0, 0, 0, vec![]);
+            let two = g.r.bool();
+            let cu2 = g.r.bool(); let w = if two { let w = new_buf(g, ncust, 4, cu2); g.push(11, w, 0, 0, 0, vec![]); w } else { 0 };
+            g.push(23, v, w, two as usize, 0, vec![]); let st = g.nslots - 1;
+            if g.r.bool() { g.push(5, v, 0, 0, 0, vec![]); }
+            g.push(24, st, 0, 0, 0, vec![]);
+            if g.r.chance(1, 4) { g.push(5, st, 0, 0, 0, vec![]); return; }
+            g.push(24, st, 0, 0, 0, vec![]);
+            g.push(24, st, 0, 0, 0, vec![]);
+        }
+        5 => { // into_vec with matching / mismatching element size, write through the Vec, back to a Buffer
+            let esz = *g.r.pick(&[1usize, 4, 8]);
+            let b = new_buf(g, ncust, esz, false);
+            let want = *g.r.pick(&[esz, esz, esz, 1, 4]);
+            g.push(9, b, want, 0, 0, vec![]);
+            if g.ctx.kind(b) == 3 {
+                let l = g.with(b, |s| view(&s.o).len()); if l > 0 { let p = g.r.below(l); g.push(8, b, p, 0x3C, 0, vec![]); }
+                g.push(10, b, 0, 0, 0, vec![]);
+                g.push(22, b, 0, 0, 0, vec![]);
+            }
+        }
+        _ => { // array whose values and validity live in the same region
+            let d = g.payload(4); let words = d.len() / 4;
+            g.push(0, 4, 0, 0, 0, d); let v = g.nslots - 1;
+            g.push(3, v, 0, 0, 0, vec![]); let n = g.nslots - 1;
+            let nb = (words + 7) / 8;
+            let half = (words / 2) / 4 * 4;
+            if half == 0 || nb > (words - half) * 4 { return; }
+            g.push(4, v, 0, half * 4, 0, vec![]); let vs = g.nslots - 1;
+            let boff = *g.r.pick(&[0usize, 1, 8]);
+            if boff + half > words * 32 { return; }
+            g.push(12, n, boff, half, 0, vec![]);
+            g.push(5, v, 0, 0, 0, vec![]);
+            g.push(11, vs, n, 1, 0, vec![]);
+            let code = *g.r.pick(&[14usize, 15, 16]);
+            g.push(code, vs, 3, 0xFFFF_FFF2, 0, vec![]);
+        }
+    }
+}
+fn g_idx(len: usize) -> usize { len / 2 }
+
 fn gen_history(r: &mut Rng, maxops: usize, threaded: bool) -> (Vec<Op>, String) {
-    let mut g = Gen::new(r, maxops + 80);
+    let mut g = Gen::new(r, 2 * maxops + 200);
     let mut ncust = 0usize;
     let empty = std::collections::HashSet::new();
     if g.r.chance(2, 3) { seed_scenario(&mut g, &mut ncust); }
@@ -932,6 +1061,8 @@ fn gen_history(r: &mut Rng, maxops: usize, threaded: bool) -> (Vec<Op>, String) 
                 // make sure the phase is followed by a main-thread operation (acts as the join + observation)
                 let d = g.payload(1); g.push(0, 1, 0, 0, 0, d);
             }
+        } else if g.r.chance(1, 7) {
+            scenario(&mut g, &mut ncust);
         } else {
             random_op(&mut g, 0, &empty, &mut ncust);
         }
